@@ -117,7 +117,16 @@ def outcome(rs):
 
 
 def case(w, frames, tags=()):
-    return {'ops': [('C', w.cfg()), ('X',)] + [('F', f) for f in frames], 'tags': list(tags)}
+    return {'ops': [('C', w.cfg()), ('X',)] + [('F', f) if isinstance(f, (bytes, bytearray)) else f for f in frames], 'tags': list(tags)}
+
+
+_TSHIFT = [0]
+
+
+def tjump(seconds):
+    """`seconds` pass (Z op): the clock shim of the harness shifts every clock the implementation reads; the shift only grows"""
+    _TSHIFT[0] += seconds
+    return ('Z', _TSHIFT[0])
 
 
 def gen_mixed(rng, tier, nworlds=None, per=None, logger=None):
@@ -334,6 +343,9 @@ def gen_c06(rng, tier):
             sport, dport = rng.u16(), rng.u16()
             f = w.tcp_frame(v6, sport, dport, rng.u32(), 0, 2)
             frames += [f, f]
+            if rng.chance(1, 3):
+                # the retransmitted SYN 65 seconds / an hour / years later: still the same cookie
+                frames += [tjump(rng.choice([65, 65, 3600, 86400, 40000000])), f, tjump(1), f]
             # the same source endpoint sweeping destinations / ports, back to back (one field changes at a time)
             s, d = w.addrs(v6)
             d2 = w.my6b if v6 else w.my4b
@@ -422,7 +434,7 @@ def gen_flows(rng, tier, nflows=4, steps=60):
 
 def pad60(frames):
     """short frames padded with zeros to the 60-byte Ethernet minimum, as a NIC delivers them"""
-    return [f + bytes(60 - len(f)) if len(f) < 60 else f for f in frames]
+    return [f + bytes(60 - len(f)) if isinstance(f, (bytes, bytearray)) and len(f) < 60 else f for f in frames]
 
 
 def gen_sticky(rng, tier, n=None):
@@ -499,6 +511,8 @@ def gen_sticky(rng, tier, n=None):
                     if rng.chance(1, 3):
                         ctl(0x10)
                     data(pl[cut:])
+            elif k == 14 and rng.chance(1, 2):
+                frames.append(tjump(rng.choice([1, 61, 65, 130, 3600, 86400, 40000000])))     # time passes on the connection
             elif k == 14:
                 # the cookie-less 20-byte binding request (only a flow already identified as STUN hands it to the responder)
                 data(b'\x00\x01\x00\x00' + rng.bytes(16))
@@ -575,6 +589,14 @@ def gen_c09(rng, tier):
                        w.tcp_frame(v6, sport, dport, 101, (ck + 1) & 0xffffffff, 0x10), w.tcp_frame(v6, sport, dport, 101, (ck + 1) & 0xffffffff, 0x11),
                        w.tcp_frame(v6, sport, dport, 102, (ck + 1) & 0xffffffff, 0x04), w.tcp_frame(v6, sport, dport, 101, (ck + 1) & 0xffffffff, 0x10)]
         cases.append(case(w, frames, ['handshake-without-data']))
+        # error messages about our packets of flows that never validated (and of one that did): no state either
+        frames = []
+        for dport in (80, 22, rng.u16()):
+            sport = rng.u16()
+            key = (6 if v6 else 4, s_, d_, struct.pack('>H', sport), struct.pack('>H', dport))
+            frames += [w.tcp_frame(v6, sport, dport, 100, 0, 0x02)] + icmp_errors_about(w.mac, key) + [w.data_frame(v6, sport, dport, 101, b'GET / HTTP/1.1\r\n\r\n')] + icmp_errors_about(w.mac, key)
+            frames += icmp_errors_about(w.mac, (key[0], s_, d_, struct.pack('>H', sport ^ 1), struct.pack('>H', dport)))
+        cases.append(case(w, frames, ['icmp-errors-about-flows']))
     return cases
 
 
@@ -2038,6 +2060,30 @@ def explore_c19(prop, pd, tier, rng, corpus_cases):
     return _result(len(groups) * 6, nontrivial, samples, compared, exact, disagreements, violations, pd['rule'], {'kinds': dist})
 
 
+def icmp_errors_about(mymac, key, l4proto=6, extra=b''):
+    """ICMP / ICMPv6 error messages a router (or the peer) might send about OUR packets of the flow `key` = (version, client address,
+    our address, client port bytes, our port bytes): destination unreachable incl. fragmentation needed with several MTUs, time
+    exceeded, redirect, source quench, parameter problem; packet too big -- each quoting the IP header + first bytes of a packet
+    from us to the client. Sent by a third party and by the client itself."""
+    ver, cl, us, cport, uport = key
+    quoted_l4 = uport + cport + bytes(4) + extra      # our packet: ports swapped, 4 more bytes (TCP seq / UDP length+checksum)
+    out = []
+    rmac = bytes.fromhex('02aabbccdd03')
+    if ver == 4:
+        q = ipv4(us, cl, l4proto, quoted_l4 + bytes(12))[:28 + len(extra)]
+        for sender in (bytes([203, 0, 113, 1]), cl):
+            # (the smallest MTU last: it is the one a path-MTU cache would keep)
+            for ty, code, rest in ((3, 4, b'\x00\x00\x05\x00'), (3, 4, b'\x00\x00\x02\x40'), (3, 1, bytes(4)), (3, 3, bytes(4)),
+                                   (3, 13, bytes(4)), (11, 0, bytes(4)), (5, 1, us), (4, 0, bytes(4)), (12, 0, b'\x14\x00\x00\x00'), (3, 4, b'\x00\x00\x00\x44')):
+                out.append(eth(mymac, rmac, 0x0800, ipv4(sender, us, 1, icmp(ty, code, rest + q))))
+    else:
+        q = ipv6(us, cl, l4proto, quoted_l4 + bytes(12))
+        for sender in (ip6('2001:db8:ffff::1'), cl):
+            for ty, code, rest in ((2, 0, b'\x00\x00\x05\x00'), (1, 0, bytes(4)), (1, 4, bytes(4)), (3, 0, bytes(4)), (4, 1, b'\x00\x00\x00\x28'), (2, 0, b'\x00\x00\x00\x44')):
+                out.append(eth(mymac, rmac, 0x86dd, ipv6(sender, us, 58, icmp6(ty, code, rest + q, sender, us))))
+    return out
+
+
 def explore_c08(prop, pd, tier, rng, corpus_cases):
     """reply(f | h) = reply(f | h restricted to accepted data segments of f's own flow)"""
     base = gen_flows(rng, tier, nflows=4, steps=40)
@@ -2060,11 +2106,12 @@ def explore_c08(prop, pd, tier, rng, corpus_cases):
             spoof = []
             if key[0] == 4:
                 spoof = [eth(BCAST, bytes.fromhex('02aabbccdd01'), 0x0806, arp(1, bytes.fromhex('02aabbccdd01'), key[1], bytes(6), key[2]))]
+            errs = icmp_errors_about(cfgop[1]['mac'], key)
             variants = [hist, own, own + others[:10], others[:5] + own, own + [gen.gen_frame(rng, World(rng))[1] for _ in range(5)],
-                        spoof + own + spoof]
+                        spoof + own + spoof, own + errs, errs + own, own + [tjump(rng.choice([65, 3600, 40000000]))]]
             ids = []
             for vh in variants:
-                c = {'ops': [cfgop, ('X',)] + [('F', x) for x in vh] + [('F', f)], 'tags': ['noninterference']}
+                c = {'ops': [cfgop, ('X',)] + [('F', x) if isinstance(x, (bytes, bytearray)) else x for x in vh] + [('F', f)], 'tags': ['noninterference']}
                 cases.append(c)
                 ids.append(len(cases) - 1)
             groups.append((ids, f, cfgop))
@@ -2136,14 +2183,21 @@ def explore_c08(prop, pd, tier, rng, corpus_cases):
             near += [uframe(v6, src2, dst, mac2, sp ^ 2, dp, pl[:k]) for k in cutpoints if 0 < k < len(pl)]
         rng_near = [near[rng.below(len(near))] for _ in range(4)]
         variants = [[], near, near[:1], near[4:5], rng_near + [gen.gen_frame(rng, sw)[1] for _ in range(4)], near + near] + [[x] for x in near[7:]]
+        pk = split_reply(probe)
+        if 'ip' in pk and ('udp' in pk or kind == 'echo'):
+            # error messages about our (future) answers to this very peer, and time passing after a near-duplicate
+            ports = (struct.pack('>H', pk['udp'][0]), struct.pack('>H', pk['udp'][1])) if 'udp' in pk else (b'\x00\x00', b'\x00\x00')
+            fk = (6 if v6 else 4, pk['ip'][0], pk['ip'][1], ports[0], ports[1])
+            variants.append(icmp_errors_about(sw.mac, fk, l4proto=17 if 'udp' in pk else (58 if v6 else 1)))
+        variants.append(near[:2] + [tjump(rng.choice([65, 3600, 40000000]))])
         ids = []
         for vh in variants:
-            cases.append({'ops': [swcfg, ('X',)] + [('F', x) for x in vh] + [('F', probe)], 'tags': ['stateless-probe', 'probe:' + kind]})
+            cases.append({'ops': [swcfg, ('X',)] + [('F', x) if isinstance(x, (bytes, bytearray)) else x for x in vh] + [('F', probe)], 'tags': ['stateless-probe', 'probe:' + kind]})
             ids.append(len(cases) - 1)
         groups.append((ids, probe, swcfg))
-    iso = [c for c in cases if 'stateless-probe' in c['tags']]
-    run_cases([c for c in cases if 'stateless-probe' not in c['tags']])
-    run_cases(iso, isolate=True)
+    # every variant in a fresh implementation process: state kept outside the connection table (which `X` cannot reset) would
+    # otherwise leak from one variant into the next and make all of them agree
+    run_cases(cases, isolate=True)
     violations, disagreements, samples = [], [], []
     nontrivial = 0
     # flood: more validated flows than any plausible table bound between the two halves of one request
